@@ -803,7 +803,7 @@ class TexExpr(object):
         TexExpr('textbf', ['hello', 'world'])
         """
         self._assert_supports_contents()
-        self._contents.extend(exprs)
+        self._contents.extend(self._to_contents(exprs))
 
     def insert(self, i, *exprs):
         """Insert content at specified position into expression.
@@ -822,9 +822,8 @@ class TexExpr(object):
         TexExpr('textbf', ['asdf', 'world', 'hello'])
         """
         self._assert_supports_contents()
-        for j, expr in enumerate(exprs):
-            if isinstance(expr, TexExpr):
-                expr.parent = self
+        for j, expr in enumerate(self._to_contents(exprs)):
+            expr.parent = self
             self._contents.insert(i + j, expr)
 
     def remove(self, expr):
@@ -853,6 +852,14 @@ class TexExpr(object):
             index = self._contents.index(expr)
         del self._contents[index]
         return index
+
+    @staticmethod
+    def _to_contents(exprs):
+        """New contents as expressions: a node stands for its expression and a
+        plain string for a text expression, so that every view finds them."""
+        return [expr.expr if isinstance(expr, TexNode) else
+                expr if isinstance(expr, TexExpr) else TexText(expr)
+                for expr in exprs]
 
     def _supports_contents(self):
         return True
